@@ -63,6 +63,20 @@ pub fn op_generic(args: &[Sexp]) -> String {
     }
 }
 
+/// the earlier graph of a history case: `(adj) (items) (adj0)` — the cells are first wired as `adj0` and the
+/// library is ordered once; then the SAME cells are rewired in place to `adj` (the library's cell list is not
+/// touched) and ordered again. The answer is the second ordering: no state may survive the edit.
+fn parse_earlier(args: &[Sexp], n: usize) -> Option<Option<Vec<Vec<usize>>>> {
+    match args.get(2) {
+        None => Some(None),
+        Some(a) => {
+            let mut tbl0 = vec![];
+            for r in a.list()? { tbl0.push(r.list()?.iter().map(|x| x.int().map(|v| v as usize)).collect::<Option<Vec<_>>>()?); }
+            if tbl0.len() != n || tbl0.iter().any(|r| r.iter().any(|d| *d >= n)) { return None; }
+            Some(Some(tbl0))
+        }
+    }
+}
 pub fn op_raw(args: &[Sexp]) -> String {
     use layout21raw as raw;
     let (tbl, items) = match parse_graph(args) {
@@ -70,6 +84,7 @@ pub fn op_raw(args: &[Sexp]) -> String {
         None => return "bad-op".into(),
     };
     let n = tbl.len();
+    let earlier = match parse_earlier(args, n) { Some(e) => e, None => return "bad-op".into() };
     // a leaf with an odd index is built as an abstract-only cell (no layout view): such cells occur
     // in every library imported from LEF and must be ordered like any other leaf
     let layoutless = |i: usize| tbl[i].is_empty() && i % 2 == 1;
@@ -85,24 +100,34 @@ pub fn op_raw(args: &[Sexp]) -> String {
             Ptr::new(raw::Cell::from(lay))
         })
         .collect();
-    for i in 0..n {
-        if layoutless(i) { continue; }
-        let mut c = cells[i].write().unwrap();
-        let lay = c.layout.as_mut().unwrap();
-        for (k, d) in tbl[i].iter().enumerate() {
-            lay.insts.push(raw::Instance {
-                inst_name: format!("i{}", k),
-                cell: cells[*d].clone(),
-                loc: raw::Point::new(0, 0),
-                reflect_vert: false,
-                angle: None,
-            });
+    let wire = |g: &Vec<Vec<usize>>| {
+        for i in 0..n {
+            if layoutless(i) { continue; }
+            let mut c = cells[i].write().unwrap();
+            let lay = c.layout.as_mut().unwrap();
+            lay.insts.clear();
+            for (k, d) in g[i].iter().enumerate() {
+                if i < g.len() && layoutless(i) { continue; }
+                lay.insts.push(raw::Instance {
+                    inst_name: format!("i{}", k),
+                    cell: cells[*d].clone(),
+                    loc: raw::Point::new(0, 0),
+                    reflect_vert: false,
+                    angle: None,
+                });
+            }
         }
-    }
+    };
     let mut lib = raw::Library::new("lib", raw::Units::Nano);
     for i in &items {
         lib.cells.push(cells[*i].clone());
     }
+    if let Some(g0) = &earlier {
+        wire(g0);
+        let _ = raw::DepOrder::order(&lib);
+        let _ = lib.to_proto();
+    }
+    wire(&tbl);
     let r = raw::DepOrder::order(&lib);
     let out = match r {
         Ok(v) => fmt_ok(&v.iter().map(|p| idx_of_name(&p.read().unwrap().name)).collect::<Vec<_>>()),
@@ -122,29 +147,43 @@ pub fn op_tetris(args: &[Sexp]) -> String {
         None => return "bad-op".into(),
     };
     let n = tbl.len();
+    let earlier = match parse_earlier(args, n) { Some(e) => e, None => return "bad-op".into() };
     let cells: Vec<Ptr<t::cell::Cell>> = (0..n)
         .map(|i| {
             let lay = t::layout::Layout::new(format!("c{}", i), 0, t::outline::Outline::rect(1, 1).unwrap());
             Ptr::new(t::cell::Cell::from(lay))
         })
         .collect();
-    for i in 0..n {
-        let mut c = cells[i].write().unwrap();
-        let lay = c.layout.as_mut().unwrap();
-        for (k, d) in tbl[i].iter().enumerate() {
-            lay.instances.add(t::instance::Instance {
-                inst_name: format!("i{}", k),
-                cell: cells[*d].clone(),
-                loc: (0, 0).into(),
-                reflect_horiz: false,
-                reflect_vert: false,
-            });
+    let wire = |g: &Vec<Vec<usize>>| {
+        for i in 0..n {
+            let mut c = cells[i].write().unwrap();
+            let lay = c.layout.as_mut().unwrap();
+            lay.instances = Default::default();
+            for (k, d) in g[i].iter().enumerate() {
+                lay.instances.add(t::instance::Instance {
+                    inst_name: format!("i{}", k),
+                    cell: cells[*d].clone(),
+                    loc: (0, 0).into(),
+                    reflect_horiz: false,
+                    reflect_vert: false,
+                });
+            }
         }
-    }
+    };
     let mut lib = t::library::Library::new("lib");
     for i in &items {
         lib.cells.push(cells[*i].clone());
     }
+    if let Some(g0) = &earlier {
+        wire(g0);
+        let _ = lib.dep_order();
+        // a placement run in between: the placer returns the library it was given
+        let st = t::stack::Stack { units: layout21raw::Units::default(), boundary_layer: None, prim: t::stack::PrimitiveLayer::new((100, 100).into()), metals: Vec::new(), vias: Vec::new(), rawlayers: None };
+        if let Ok(vs) = st.validate() {
+            if let Ok((l2, _)) = t::placer::Placer::place(lib.clone(), vs) { lib = l2; }
+        }
+    }
+    wire(&tbl);
     let out = match lib.dep_order() {
         Ok(v) => fmt_ok(&v.iter().map(|p| idx_of_name(&p.read().unwrap().name)).collect::<Vec<_>>()),
         Err(_) => "err".into(),
@@ -384,6 +423,25 @@ pub fn gen(thorough: bool, rng: &mut Rng, out: &mut Vec<String>) {
         items.truncate(k);
         if rng.chance(1, 5) { let d = items[rng.below(items.len() as u64) as usize]; items.push(d); }
         out.push(fmt_case(["dep.raw", "dep.tetris", "dep.tetrisraw"][rng.below(3) as usize], &tbl, &items));
+    }
+    // histories: the cells are wired one way, the library is ordered (converted / placed), the same cells are
+    // rewired in place — an instance added, removed, or everything new — and the library is ordered again
+    for _ in 0..(if thorough { 6000 } else { 600 }) {
+        let n = 2 + rng.below(6) as usize;
+        let cy0 = rng.chance(1, 5); let tbl0 = random_graph(rng, n, cy0);
+        let mut tbl = tbl0.clone();
+        match rng.below(4) {
+            0 => { let a = rng.below(n as u64) as usize; let b = rng.below(n as u64) as usize; tbl[a].push(b); }            // one more instance (may close a cycle)
+            1 => { let a = rng.below(n as u64) as usize; if !tbl[a].is_empty() { let k = rng.below(tbl[a].len() as u64) as usize; tbl[a].remove(k); } }
+            2 => { let a = rng.below(n as u64) as usize; let b = rng.below(n as u64) as usize; if a != b { tbl[a].push(b); let c = rng.below(n as u64) as usize; tbl[c].clear(); } }
+            _ => { let cy1 = rng.chance(1, 5); tbl = random_graph(rng, n, cy1); }
+        }
+        let mut items: Vec<usize> = (0..n).collect();
+        shuffle(rng, &mut items);
+        if rng.chance(1, 3) { items.truncate(1 + rng.below(n as u64) as usize); }
+        let op = ["dep.raw", "dep.tetris"][rng.below(2) as usize];
+        let g0: Vec<String> = tbl0.iter().map(|r| format!("({})", r.iter().map(|x| x.to_string()).collect::<Vec<_>>().join(" "))).collect();
+        out.push(format!("{} ({})", fmt_case(op, &tbl, &items), g0.join(" ")));
     }
     // random DAGs and cyclic graphs for the embedded orderers, up to hundreds of nodes
     let reps = if thorough { 1500 } else { 150 };
